@@ -27,6 +27,10 @@ PROPS = {
         "streams": [
             {"name": "wire-decode", "quick": 20000, "thorough": 400000},
             {"name": "wire-mutations", "quick": 24, "thorough": 400},
+            # maximal backward pointer chains on a 2 MiB-stack thread: dev profile up to depth 4000,
+            # release profile (the profile the property is about) up to the 8180 maximum
+            {"name": "wire-deep", "quick": 4000, "thorough": 4000, "shards": 1, "fixed": True},
+            {"name": "wire-deep", "quick": 8180, "thorough": 8180, "shards": 1, "fixed": True, "release": True, "tiers": ["thorough"]},
         ],
         "trivial_tags": [r":bad-op", r"decode:CompletelyBusted", r"decode:HeaderTooShort"],
         "assumptions": [
